@@ -29,7 +29,7 @@ def explore_with(cg, it, fname, mk):
 
 def run_caller(cg, B, types, ret='int', depth0=0):
     it = cg.interp()
-    it.opaque_fns.discard('has_flonum')
+    it.opaque_fns.discard('has_flonum'); it.opaque_fns.discard('has_ldouble'); it.opaque_fns.discard('is_ldouble_only')
     it.global_init['depth'] = depth0
     it.rec_limit = 64          # push_args2 / has_flonum recurse over concrete lists
 
@@ -188,7 +188,7 @@ def r_caller(cg, B, rep, tier):
 def run_callee(cg, B, types, variadic=False, ret='int', extra_locals=()):
     """assign_lvar_offsets + emit_text on a concrete function object"""
     it = cg.interp()
-    it.opaque_fns.discard('has_flonum')
+    it.opaque_fns.discard('has_flonum'); it.opaque_fns.discard('has_ldouble'); it.opaque_fns.discard('is_ldouble_only')
     it.rec_limit = 64
     it.global_init['depth'] = 0
     it.global_init['current_fn'] = 0
@@ -390,7 +390,7 @@ def r_returns(cg, B, rep):
         # ---- callee side: return statement
         keyc = '%s:ND_RETURN:returns-%s' % (U, t)
         it = cg.interp()
-        it.opaque_fns.discard('has_flonum')
+        it.opaque_fns.discard('has_flonum'); it.opaque_fns.discard('has_ldouble'); it.opaque_fns.discard('is_ldouble_only')
         it.rec_limit = 64
         box = {}
 
